@@ -6,10 +6,14 @@
    reported position is the coordinate of an offset of the input: its line is a line of the input and
    its column at most one past the end of that line.  The parser's errors carry the position of a
    token, so this is the position claim for scanner-detected and syntax errors alike.
-   Not proved: termination, no-panic and the concatenation law of the LALR driver - those are decided
-   by execution over generated inputs in ./check C15. *)
+   The scanner half of the concatenation law is proved too (Parse/ScannerConcat.v): for EVERY pair of
+   texts A, B where A scans without an error token, the stream of A ++ newline ++ B is A's stream with
+   its EOF replaced by the newline token, then B's stream with every line number raised by the line A
+   ends on (kinds, literals, columns and error flags of B's tokens unchanged).
+   Not proved: termination, no-panic and the concatenation law of the LALR driver (statement lists
+   of the concatenation) - those are decided by execution over generated inputs in ./check C15. *)
 From Coq Require Import List ZArith Bool Lia String.
-From Anko Require Import Parse.Scanner Parse.ScannerProofs Parse.ScannerDriver.
+From Anko Require Import Parse.Scanner Parse.ScannerProofs Parse.ScannerConcat Parse.ScannerDriver.
 Import ListNotations.
 
 Theorem scanning_terminates_with_EOF : forall (is_letter : Z -> bool), is_letter NL = false ->
@@ -40,6 +44,18 @@ Proof. intro src. destruct (scanning_terminates_with_EOF letter_table eq_refl sr
 Theorem scanning_is_a_function_of_the_text : forall is_letter s1 s2, s1 = s2 -> tokens is_letter s1 = tokens is_letter s2.
 Proof. intros; subst; reflexivity. Qed.
 
+(* compositional, at the level of tokens: what follows the next newline does not change what was
+   scanned before it, and where a text starts only moves its line numbers *)
+Theorem scanning_is_compositional : forall (is_letter : Z -> bool), is_letter NL = false -> forall A B la lb,
+  tokens is_letter A = Some la -> Forall (fun t => t_err t = false) la -> tokens is_letter B = Some lb ->
+  exists ts eof, la = (ts ++ [eof])%list /\ t_kind eof = KEOF /\
+    tokens is_letter (A ++ NL :: B) = Some (ts ++ nl_tok eof :: map (shift_tok (t_line eof)) lb)%list.
+Proof. exact tokens_of_concatenation. Qed.
+
+Theorem scanning_does_not_depend_on_the_starting_line : forall is_letter k fuel s,
+  scan_all is_letter fuel (shift k s) = match scan_all is_letter fuel s with Some l => Some (map (shift_tok k) l) | None => None end.
+Proof. intros. apply scan_all_shift. Qed.
+
 Example comment_loop_terminates :
   option_map (map t_kind) (tokens letter_table [47; 42; 42; 42; 47; 97]) = Some [KName "IDENT"%string; KEOF].
 Proof. vm_compute. reflexivity. Qed.
@@ -50,3 +66,5 @@ Proof. vm_compute. reflexivity. Qed.
 Print Assumptions scanning_terminates_with_EOF.
 Print Assumptions positions_lie_inside_the_input.
 Print Assumptions extracted_scanner_is_total.
+Print Assumptions scanning_is_compositional.
+Print Assumptions scanning_does_not_depend_on_the_starting_line.
